@@ -83,12 +83,6 @@ def run(ctx):
     needed = {"w_open", "w_write", "m_tmp_write", "m_rename", "take", "r_remove"}
     if not crashed and not needed.issubset(labels):
         raise Machinery("crash points never reached: %s" % (needed - set(labels)))
-    if not crashed and end:
-        if nrec2 == 0 or not {"m_tmp_write", "m_rename", "w_write"}.issubset(labels2):
-            raise Machinery("second-generation crash points never reached: %d recoveries, labels %s" % (nrec2, sorted(labels2)))
-        if end[0].get("gen2_stale_tail_snapshots", 0) == 0:
-            raise Machinery("no second-generation snapshot has a metadata file with a stale tail: the left-over "
-                            "temp file scenario (crash between temp write and rename, shorter text afterwards) was not reached")
 
     # 4. TLC decides every recovery against the level-A contract
     diverged = []
@@ -135,6 +129,14 @@ def run(ctx):
         ctx.violation(sig, what, dict(history=hist, prefix=block[:idx + 1][-30:]))
 
     ntr, nrej = dqlib.validate_level_a(ctx, events, True, False, on_reject, max_rounds=12)
+    # the second generation must have been exercised (the driver skips it when the queue hangs, which
+    # is reported above as a violation)
+    if not crashed and not ctx.violations:
+        if nrec2 == 0 or not {"m_tmp_write", "m_rename", "w_write"}.issubset(labels2):
+            raise Machinery("second-generation crash points never reached: %d recoveries, labels %s" % (nrec2, sorted(labels2)))
+        if end[0].get("gen2_stale_tail_snapshots", 0) == 0:
+            raise Machinery("no second-generation snapshot has a metadata file with a stale tail: the left-over "
+                            "temp file scenario (crash between temp write and rename, shorter text afterwards) was not reached")
     if diverged:
         ctx.note("%d second-generation run(s) did not hand out what the recovery of the same snapshot delivered; "
                  "not judged, e.g. %s" % (len(diverged), json.dumps(diverged[0])[:600]))
